@@ -18,6 +18,10 @@ from .common import loc, strip
 
 EXPLANATION = (
     "static analysis of Settings.context, Settings.__init__, Op.str, Op.is_close and a scan of every module of the "
+    "package: Y-sem - the context manager is interpreted abstractly (sa/absexec.py) on a settings object with symbolic attribute values "
+    "for every subset of the named settings (also requesting the values already held), a with-body that assigns every setting, and "
+    "every way of leaving it (normal, Exception, KeyboardInterrupt, GeneratorExit) plus nested contexts: named settings restored, "
+    "others untouched, values inside, generator protocol; in addition, where the usual shape is recognised, "
     "package: CFG path rules (snapshot before first write; every normal and exceptional continuation of the single "
     "yield passes the restore loop; restore ranges over exactly the applied keys and reads the snapshot), the "
     "context-parameter <-> Settings attribute table, no early-bound read of a setting (default arguments, class "
@@ -27,7 +31,7 @@ ASSUMPTIONS = [
     "contextlib.contextmanager semantics: an exception in the with-body is thrown in at the yield; generators are LIFO",
     "settings are plain instance attributes (vars(self)) as established by Settings.__init__",
 ]
-FLOORS = {"Y1": 1, "Y2": 1, "Y3": 2, "Y4": 5, "Y5": 8, "Y6": 2, "Y7": 2, "Y8": 3}
+FLOORS = {"Y-sem": 6, "Y1": 1, "Y5": 8, "Y6": 2, "Y7": 2, "Y8": 3}
 
 SPEC_SETTINGS = ["float_type", "decimals", "atol", "rtol", "alias", "logger", "factory_manager"]
 
@@ -50,7 +54,13 @@ def is_snapshot(t: Term) -> bool:
 
 def run(check: Check) -> None:
     p = check.program
-    context_rules(check)
+    context_semantics(check)
+    try:
+        context_rules(check)
+    except AnalysisError as ex:
+        # the structural rules recognise the snapshot / apply loop / try-finally / restore loop shape only; the behaviour itself has
+        # been decided above by abstract interpretation, so an unfamiliar shape is not an analysis failure
+        check.notes.append(f"structural rules Y2-Y4 not applicable to this shape of Settings.context: {ex}")
     param_table(check)
     early_binding(check, p)
     who_may_write(check, p)
@@ -361,3 +371,145 @@ def fixtures(check: Check) -> None:
         raise AnalysisError(f"positive fixture for Y6/Y7 no longer matches (reads={len(reads)}, writes={len(writes)})")
     check.ok("Y6", "fixture/early-reads", f"positive fixture matched {len(reads)} early reads")
     check.ok("Y7", "fixture/writes", f"positive fixture matched {len(writes)} foreign writes")
+
+
+# ------------------------------------------------------------------------------------------------ Y-sem
+def context_semantics(check: Check) -> None:
+    """Y-sem [E]: `Settings.context` is interpreted abstractly (sa/absexec.py) on a settings object whose attributes hold distinct
+    symbolic values, for every subset of the named settings, a with-body that assigns *every* setting directly, and every way of
+    leaving the body (normally, by an Exception, by a BaseException such as KeyboardInterrupt, by GeneratorExit). Specified:
+    inside the body the named settings hold the requested values and the others their previous ones; after the context every
+    named setting holds its previous value again and every other setting what the body assigned. Nesting is covered by running a
+    second context inside the body of the first."""
+    import itertools
+
+    from ..absexec import AbsExec, Internal, MObj, Raised, Unknown, _Return
+
+    p = check.program
+    fn = p.func("Settings.context")
+    init = p.func("Settings.__init__")
+    check.analysed(fn)
+    node = fn.analysis_node
+    params, renames = context_params(fn, p)
+    attrs = []
+    for n in ast.walk(init.analysis_node):
+        if isinstance(n, (ast.Assign, ast.AnnAssign)):
+            for t in (n.targets if isinstance(n, ast.Assign) else [n.target]):
+                if isinstance(t, ast.Attribute) and isinstance(t.value, ast.Name) and t.value.id == "self" and t.attr not in attrs:
+                    attrs.append(t.attr)
+    if not params or not attrs:
+        raise AnalysisError("Settings.context / Settings.__init__: parameters or attributes not found")
+    attr_of = {prm: renames.get(prm, prm) for prm in params}
+    EXITS = [None, "ValueError", "KeyboardInterrupt", "GeneratorExit"]
+    bad: dict[str, str] = {}
+    cases = 0
+
+    def run_context(obj: MObj, named: tuple[str, ...], tag: str, body, same: bool = False) -> tuple[str, str | None]:
+        """Interpret context(**{n: new(n)}) on obj; `body(obj)` runs at the yield and may raise Raised. Returns (outcome, class)."""
+        state = {"yields": 0}
+
+        def on_yield(ex_, e, value, env):
+            state["yields"] += 1
+            body(obj)
+            return None
+
+        ex = AbsExec(fn.qualname, {"yield": on_yield})
+        env = {"self": obj}
+        for prm in params:
+            env[prm] = (("old", attr_of[prm]) if same else ("new", tag, prm)) if prm in named else None
+        try:
+            ex.block(list(node.body), env)
+        except Raised as r:
+            return ("raise", r.cls) if state["yields"] else ("raise-before-yield", r.cls)
+        except Internal as i:
+            return "internal", f"{i.cls}: {i.why}"
+        except _Return:
+            pass
+        if state["yields"] != 1:
+            return "yields", str(state["yields"])
+        return "ok", None
+
+    def fresh() -> MObj:
+        return MObj("Settings", {a: ("old", a) for a in attrs})
+
+    def note(kind: str, text: str) -> None:
+        bad.setdefault(kind, text)
+
+    subsets = [c for k in range(len(params) + 1) for c in itertools.combinations(params, k)]
+    try:
+        for named, same in [(n_, False) for n_ in subsets] + [(n_, True) for n_ in subsets if n_]:
+            for exit_cls in EXITS:
+                cases += 1
+                obj = fresh()
+                inside: dict[str, object] = {}
+
+                def body(o: MObj, exit_cls=exit_cls, inside=inside) -> None:
+                    inside.update(o.fields)
+                    for a in attrs:  # the with-body assigns every setting directly
+                        o.fields[a] = ("body", a)
+                    if exit_cls is not None:
+                        raise Raised(exit_cls)
+
+                outcome, cls = run_context(obj, named, "c1", body, same)
+                what = f"context({', '.join(named) or 'nothing'}{' - requesting the values the settings already hold' if same else ''}) left {'normally' if exit_cls is None else 'by ' + exit_cls}"
+                if outcome == "internal":
+                    note("internal", f"{what}: internal error {cls}")
+                    continue
+                if outcome in ("yields", "raise-before-yield"):
+                    note("protocol", f"{what}: the generator yields {cls} time(s) / raises {cls} before yielding" if outcome == "yields" else f"{what}: raises {cls} before the body runs")
+                    continue
+                if exit_cls is None and outcome != "ok":
+                    note("protocol", f"{what}: raises {cls} although the body completed")
+                if exit_cls is not None and not (outcome == "raise" and cls == exit_cls):
+                    note("swallow", f"{what}: the exception is {'swallowed' if outcome == 'ok' else 'replaced by ' + str(cls)}")
+                for prm in params:
+                    a = attr_of[prm]
+                    want_in = ("new", "c1", prm) if prm in named and not same else ("old", a)
+                    if inside.get(a) != want_in:
+                        note("inside", f"{what}: inside the context `{a}` holds {inside.get(a)} (specified {want_in})")
+                    want_after = ("old", a) if prm in named else ("body", a)
+                    got = obj.fields.get(a)
+                    if got != want_after:
+                        kind = "not-restored" if prm in named else "touched"
+                        note(f"{kind}:{'exc' if exit_cls else 'normal'}",
+                             f"{what}: afterwards `{a}` holds {got}, specified {want_after} "
+                             + ("(a named setting must have its previous value again)" if prm in named else "(a setting not named in the context must not be touched)"))
+                extra = set(obj.fields) - set(attrs)
+                if extra:
+                    note("extra", f"{what}: leaves new attributes {sorted(extra)} on the settings object")
+        # nesting: an inner context inside the body of an outer one, inner left by an exception that the outer body lets through / handles
+        pairs = [((params[0],), (params[0],)), ((params[0], params[1]), (params[1],)), ((params[0],), (params[1],)), ((), (params[0],))]
+        for outer, inner in pairs:
+            for inner_exit in (None, "ValueError"):
+                cases += 1
+                obj = fresh()
+
+                def inner_body(o: MObj, inner_exit=inner_exit) -> None:
+                    if inner_exit is not None:
+                        raise Raised(inner_exit)
+
+                def outer_body(o: MObj, inner=inner, inner_body=inner_body) -> None:
+                    mid = dict(o.fields)
+                    out_, cls_ = run_context(o, inner, "c2", inner_body)
+                    if dict(o.fields) != mid:
+                        note("nesting", f"context({', '.join(inner)}) nested in context({', '.join(outer)}): after the inner context the settings are "
+                             f"{ {k: v for k, v in o.fields.items() if mid.get(k) != v} }, not what the outer context established")
+                    # the outer body handles the inner exception
+
+                run_context(obj, outer, "c1", outer_body)
+                if obj.fields != {a: ("old", a) for a in attrs}:
+                    note("nesting", f"nested contexts ({', '.join(outer)}) / ({', '.join(inner)}): afterwards the settings are not the initial ones")
+    except Unknown as u:
+        raise AnalysisError(str(u)) from None
+
+    def verdict(construct: str, kinds: list[str], ok_text: str) -> None:
+        hits = [bad[k] for k in kinds if k in bad]
+        check.require(not hits, "Y-sem", f"Settings.context/{construct}", ok_text if not hits else hits[0], loc(fn),
+                      {"cases": cases, "subsets": len(subsets), "exits": [e or "normal" for e in EXITS]}, exhaustive=True, cases=cases)
+
+    verdict("restored-on-normal-exit", ["not-restored:normal"], f"every named setting has its previous value after a normal exit ({len(subsets)} subsets of the settings)")
+    verdict("restored-on-exception", ["not-restored:exc"], "every named setting has its previous value after leaving by Exception, KeyboardInterrupt or GeneratorExit")
+    verdict("others-untouched", ["touched:normal", "touched:exc", "extra"], "settings not named in the context keep whatever the body assigned to them")
+    verdict("values-inside", ["inside"], "inside the context the named settings hold the requested values, the others their previous ones")
+    verdict("protocol", ["protocol", "swallow", "internal"], "the generator yields exactly once, never swallows or replaces the body's exception, and has no internal error")
+    verdict("nesting", ["nesting"], "nested contexts restore innermost first, to the values the enclosing context established")
